@@ -66,6 +66,10 @@ CHECKS = {
    text="swap_integer proved (all 32-bit words) to be the byte reversal, an involution, and to recover the TRR magic number; swap_endian total on its domain. g96 / xyz / lammpstrj write-read round trips, frame-k extraction, TRR decoding for both byte orders and precisions (triclinic boxes), velocity reversal per format, and mdp / LAMMPS / CP2K template edits (exact entries, idempotent, CP2K as section trees) are bounded native grids.",
    note="Only swap_integer/swap_endian are deductive; decimal-text round trips and regex editing are outside SMT reach and are bounded stand-ins.",
    design="5/C19"),
+ "C12": dict(level="other", technique=E1 + "; slices of LAMMPSEngine._propagate_from extracted mechanically from the real AST; E2 for calculate_order; bounded native run for the in-process TurtleMD loop",
+   text="add_to_path's stop/success rule proved for all inputs; the LAMMPS frame-consumption loop verified with a ghost frame index for any number of ready frames (frame k evaluated with its own positions, velocities, box; stored config (file,k)) -- this refuted the original tree (fix a417b25); the LAMMPS failure statement raises iff exit code != 0 and not terminated by us; calculate_order applies the velocity-reversal flag (E2); TurtleMD loop natively (first frame, stored = recomputed orders, stop rule).",
+   note="External programs and integrators not verified. Not covered: CP2K/GROMACS/ASE loops, their process clean-up, time-reversal retrace. The reader's two lists are assumed aligned (bounded evidence under C13).",
+   design="5/C12"),
 }
 NA = {
  "C01": "statistical convergence of an estimator over random histories; no pre/postcondition, invariant or lemma over function contracts expresses or decides it (DESIGN 5/C01). Its deterministic ingredients are decided under C02, C04, C09, C10.",
